@@ -11,7 +11,7 @@ with it, the call must raise TypeError or ValueError.
 """
 
 from ..core import strip_addr
-from ..grammar import FAMILY, ITEM_KIND, is_even_int
+from ..grammar import ALL_KINDS, FAMILY, ITEM_KIND, is_even_int
 from ..history import HistoryCheck, is_inplace, method_kind, state_digest
 from ..snap import is_spec_instance
 
@@ -37,6 +37,12 @@ def conforms(value, kind, depth=0):
         return None if _is_int(value) or isinstance(value, str) else f"{t} is not Union[int, str]"
     if kind == "lit":
         return None if value in ("a", "b") and isinstance(value, str) else f"{value!r} not in Literal['a','b']"
+    if kind == "tup2":
+        ok = isinstance(value, tuple) and len(value) == 2 and _is_int(value[0]) and isinstance(value[1], str)
+        return None if ok else f"{value!r} is not Tuple[int, str]"
+    if kind == "tupvar":
+        ok = isinstance(value, tuple) and all(_is_int(e) for e in value)
+        return None if ok else f"{value!r} is not Tuple[int, ...]"
     if kind == "bounded":
         return None if _is_int(value) and value >= 0 else f"{value!r} is not int>=0"
     if kind == "validated":
@@ -134,7 +140,8 @@ class C03(HistoryCheck):
     PROP = "C03"
     LEVEL = "exploration"
     RUNS = {"quick": 1500, "thorough": 30000}
-    PROFILE = {"allow_frozen": False, "allow_class_dnc": False, "allow_bad_defaults": True}
+    PROFILE = {"allow_frozen": False, "allow_class_dnc": False, "allow_bad_defaults": True,
+               "kinds": ALL_KINDS + ["tup2", "tupvar"]}  # (tuple generics are named by the statement)
     OPGEN = {"p_bad": 0.45, "p_inplace": 0.5, "p_nested_target": 0.2,
              "weights": {"new": 3, "scalar": 7, "element": 10, "toplevel": 4, "set": 4, "del": 1, "get": 0.3,
                          "deepcopy": 0.3, "nested": 2}}
